@@ -1,5 +1,5 @@
 """C02 - credulous acceptance answers match the semantics (narrow clauses only)"""
-from . import accept, cli
+from . import accept, cli, provenance
 
 
 def run(ctx):
@@ -8,6 +8,9 @@ def run(ctx):
     accept.rule_membership_answers(ctx)
     accept.rule_list_quantifiers(ctx)
     accept.rule_certificate_shapes(ctx)
+    provenance.rule_literal_provenance(ctx)
+    provenance.rule_fresh_solver_per_encoding(ctx)
+    accept.rule_stage_layering(ctx, 'credulous')
     ctx.assume("rustc's MIR and resolved callees; the tables stated in the property (DC-PR through the complete solver)")
     return (
         "F2/F5 on the stable solver (no stable extension in a component => NO for every credulous query, by the constant pair passed by the entry "
